@@ -647,6 +647,8 @@ pub fn is_pinned_function(lang: &str, w: &str) -> bool {
 /// Only when a cut can separate a base letter from its mark, split an expanding letter, or leave
 /// a non-alphanumeric character at a word edge. Anything else must be probed, not skipped.
 pub fn retyping_may_differ(words: &[&[char]], typed_text: &str) -> bool {
-    typed_text.chars().any(|c| (0x300..0x370).contains(&(c as u32)) || "ßẞœæøŒÆØ\0".contains(c))
+    // marks: the general combining block plus whatever any (shipped or custom) table composes with
+    let custom_mark = |c: char| tables::COMPOSE_XX.iter().chain(tables::COMPOSE_SV.iter()).any(|(d, _)| d.chars().nth(1) == Some(c));
+    typed_text.chars().any(|c| (0x300..0x370).contains(&(c as u32)) || custom_mark(c) || "ßẞœæøŒÆØ\0".contains(c))
         || words.iter().any(|w| w.is_empty() || !w[0].is_alphanumeric() || !w[w.len() - 1].is_alphanumeric())
 }
